@@ -46,6 +46,7 @@ def cases(draw, tier="quick"):
     if c["nl_s"] and c["nl_r"] and not c["relay"]:
         c["nl_r"] = False
     c["bogus"] = [draw(st.integers(0, 2)), draw(st.integers(0, 2))]
+    c["nxdomain"] = draw(st.integers(0, 3)) == 0
     c["rogues"] = draw(st.lists(st.tuples(st.sampled_from(ROGUE_KINDS), st.sampled_from(["dial-s", "dial-r", "hint-s", "hint-r"]),
                                           st.integers(0, 90)).map(list), max_size=3))
     c["nopath"] = draw(st.integers(0, 6)) == 0
@@ -239,6 +240,10 @@ def run_case(c):
                    for i in range(c["bogus"][0])]
         bogus_r = [{"type": "direct-tcp-v1", "hostname": "10.0.0.9", "port": 1100 + i, "priority": 0.0}
                    for i in range(c["bogus"][1])]
+        if c.get("nxdomain"):
+            # hints whose host name does not resolve: that contender fails at once, before anybody has won
+            bogus_s = bogus_s + [{"type": "direct-tcp-v1", "hostname": "peer-laptop.invalid", "port": 1200, "priority": 0.0}]
+            bogus_r = bogus_r + [{"type": "direct-tcp-v1", "hostname": "peer-desktop.invalid", "port": 1201, "priority": 0.0}]
         s.add_connection_hints(hr + bogus_s + rogue_listen_hints["s"])
         r.add_connection_hints(hs + bogus_r + rogue_listen_hints["r"])
         result = {}
